@@ -238,6 +238,12 @@ func (c *conn) ExecContext(ctx context.Context, query string, args []driver.Name
 		})
 		return execResult{}, err
 	}
+	if c.w.realSQL && looksLikeDDL(query) {
+		c.w.mu.Lock()
+		c.w.ddlSeen = true
+		c.w.mu.Unlock()
+		return execResult{}, c.execDDL(ctx, query)
+	}
 	if c.w.realSQL {
 		res, err := c.sqlStatement(ctx, query)
 		if err != nil {
